@@ -75,7 +75,9 @@ KANI_UNITS["C10"] = dict(
     appends=[("crates/varpulis-runtime/src/engine/evaluator.rs", "__vpv_c10", "contracts/kani/c10.rs")],
     extra_appends=[("crates/varpulis-parser/src/optimize.rs", C10_SHIM)],
     grade="K-complete", level="proof", timeout=5400, harness_timeout=600,
-    cell_grades={"_str$": "K-bounded(2-byte string literal)"},
+    cell_grades={"_str$": "K-bounded(2-byte string literal)",
+                 "c10_lit_(div|mod)_int_int$": "K-bounded(divisor in {0, 1, -1, 2, 3, -7, 10, i64::MAX, i64::MIN}; dividend full-domain)",
+                 "c10_lit_div_float_float$": "K-bounded(divisor in {0.0, -0.0, 1.0, -1.0, 2.0, 0.5, inf, NaN}; dividend full-domain)"},
     functions=["varpulis-parser/src/optimize.rs: fold_binary (every arm: 10 literal arms, 8 identity arms, reconstruct), fold_unary",
                "varpulis-runtime/src/engine/evaluator.rs: eval_expr_with_functions (as the semantics both sides are compared under)"],
     explanation=("One cell per rewrite arm of the REAL fold_binary/fold_unary: for literal x literal arms the operands are full-domain i64/f64; for the identity "
@@ -100,9 +102,11 @@ KANI_UNITS["C09"] = dict(
     functions=["varpulis-runtime/src/sase.rs: compare_values, values_equal, values_compare (pattern-step filter kernel)",
                "varpulis-runtime/src/engine/evaluator.rs: eval_expr_with_functions (Binary comparison arms) as used by .where: eval(..).and_then(as_bool).unwrap_or(false)",
                "varpulis-runtime/src/engine/compiler.rs: expr_to_sase_predicate (operator table and operand order for `field <op> literal`), expr_to_value"],
-    explanation=("PARTIAL (comparison kernel only). 90 cells = 6 comparison operators x 15 operand-kind pairs over {Int, Float (full-domain), Bool, Str (1 ASCII char), Null}: "
-                 "the pattern-step kernel compare_values(l, r, op) must give the same truth value as the `.where` truth function on Binary{op, lit(l), lit(r)} evaluated by the "
-                 "REAL evaluator; plus 6 cells showing that expr_to_sase_predicate maps `f <op> literal` to Compare{f, the same operator, the same value}. "
+    explanation=("PARTIAL (comparison kernel only). 60 cells over 6 comparison operators and the operand kinds {Int, Float (full-domain), Bool, Str (1 ASCII char), Null}: per operator "
+                 "six same-kind / numeric-mixed pairs, one merged cell for the 12 mismatched kind pairs and one for Null-Null: the pattern-step kernel compare_values(l, r, op) must "
+                 "give the same truth value as the `.where` truth function on Binary{op, lit(l), lit(r)} evaluated by the REAL evaluator; plus 6 cells showing that "
+                 "expr_to_sase_predicate maps `f <op> literal` to Compare{f, the same operator, the same value} and 6 cells that a literal-on-the-left comparison is NOT turned into a "
+                 "Compare with an un-mirrored operator. "
                  "NOT decided: everything that needs an event with fields — missing or mistyped FIELDS (as opposed to literal operands of another kind), CompareRef against "
                  "captured aliases, and not/and/or over undefined operands (by reading: `not (x > 5)` with x missing is true as a step filter and false in .where). Those paths go "
                  "through IndexMap/FxHashMap lookups which CBMC cannot carry here."),
